@@ -509,6 +509,13 @@ func (node *NotNode) AcceptVisitor(v Visitor) {
 
 func (node *NotNode) collectFragments(fragments []string) []string {
 	fragments = append(fragments, "!")
+	if _, ok := node.Operand.(*NotNode); ok {
+		// The parser collapses a run of "!" tokens, so a directly nested negation must be
+		// parenthesised or the canonical text would parse back to a different selector.
+		fragments = append(fragments, "(")
+		fragments = node.Operand.collectFragments(fragments)
+		return append(fragments, ")")
+	}
 	return node.Operand.collectFragments(fragments)
 }
 
